@@ -309,3 +309,69 @@ func HarnessSubscriptionCancel() {
 	verif.Quiesce()
 	verif.Reach("subscription-cancel-done")
 }
+
+// HarnessManySubscriptions: S subscriptions on one connection end one after the
+// other in every order, each either because its caller cancels or because its
+// handler finishes. After every step the handler contexts of the subscriptions
+// that are still open are live and their caller channels are open: ending one
+// subscription affects only that subscription.
+func HarnessManySubscriptions() {
+	S := verif.Bound("S", 3)
+	h := newH()
+	for i := 0; i < S; i++ {
+		h.release[i] = make(chan struct{})
+	}
+	srv := jsonrpc.NewServer()
+	srv.Register("H", h)
+	url, stop := verif.ServeWS(srv)
+	var c CS
+	closer, err := jsonrpc.NewMergeClient(context.Background(), url, "H", []interface{}{&c}, nil)
+	verif.Assert(err == nil, "client-created")
+	cancels := make([]context.CancelFunc, S)
+	var mu sync.Mutex
+	closed := make([]int, S)
+	for i := 0; i < S; i++ {
+		ctx, cancel := context.WithCancel(context.Background())
+		cancels[i] = cancel
+		ch, serr := c.Stream(ctx, i)
+		verif.Assert(serr == nil && ch != nil, "subscription-established")
+		i := i
+		go func() {
+			for range ch {
+			}
+			mu.Lock()
+			closed[i]++
+			mu.Unlock()
+		}()
+	}
+	verif.Quiesce()
+	live := make([]int, 0, S)
+	for i := 0; i < S; i++ {
+		live = append(live, i)
+	}
+	for step := 0; len(live) > 0; step++ {
+		sn := string(rune('0' + step))
+		k := verif.Choice("end"+sn, len(live))
+		victim := live[k]
+		live = append(live[:k:k], live[k+1:]...)
+		if verif.Bool("by_cancel" + sn) {
+			cancels[victim]()
+		} else {
+			close(h.release[victim])
+		}
+		verif.Quiesce()
+		mu.Lock()
+		verif.Assert(closed[victim] == 1, "ended-subscription-channel-closed")
+		for _, o := range live {
+			var oc context.Context
+			h.set(func() { oc = h.ctxs[o] })
+			verif.Assert(oc != nil && oc.Err() == nil, "other-subscription-context-stays-live")
+			verif.Assert(closed[o] == 0, "other-subscription-channel-stays-open")
+		}
+		mu.Unlock()
+	}
+	closer()
+	stop()
+	verif.Quiesce()
+	verif.Reach("many-subscriptions-done")
+}
